@@ -347,7 +347,24 @@ func runC17(r *Run) {
 			return isK && k == 0
 		})
 	}
-	r.Check(okRA, "C17.ledger", fname(ra), "a removed account leaves no balance behind", "SetBalance(account.Address, zero)", "RemoveAccount deletes the keeper record only: a self-destructed contract keeps its balance on the native ledger although the beneficiary received it (value exists twice)", p.pos(ra.Pos()))
+	// ... and it is the account's own (OLT) record only
+	allInstrs(ra, func(ins ssa.Instruction) {
+		c, ok := ins.(*ssa.Call)
+		if !ok || c == rsb {
+			return
+		}
+		if sc := c.Call.StaticCallee(); sc != nil && strings.HasPrefix(fname(sc), "(*data/balance.Store).") {
+			for _, a := range c.Call.Args {
+				if tname(a.Type()) == "data/balance.Coin" || tname(a.Type()) == "data/balance.Amount" {
+					okRA = false // another balance write
+				}
+			}
+		}
+	})
+	if okRA && rsb != nil {
+		okRA = derivesFrom(rsb.Call.Args[2], func(y ssa.Value) bool { return strings.HasSuffix(pathOf(y).FieldString(), "Coins.Currency") })
+	}
+	r.Check(okRA, "C17.ledger", fname(ra), "a removed account leaves no balance behind", "exactly one SetBalance(account.Address, zero of the account's own currency)", "RemoveAccount deletes the keeper record only, or zeroes records of other currencies as well (token balances of a touched empty account are wiped): a self-destructed contract keeps its balance on the native ledger although the beneficiary received it (value exists twice)", p.pos(ra.Pos()))
 
 	// ---- cache
 	ap := p.MustFn("(*vm.EVMTransaction).Apply")
